@@ -418,7 +418,11 @@ package plugins
 //@   ensures level_in_range: err == nil ==> -1 <= level && level <= 9
 //@   ensures yaml_ints_accepted: has(cfg, "level") && dyntype(cfg["level"], int) && -1 <= intval(cfg["level"]) && intval(cfg["level"]) <= 9
 //@             && has(cfg, "min_size") && dyntype(cfg["min_size"], int) ==> (err == nil ==> level == intval(cfg["level"]) && minSize == intval(cfg["min_size"]))
-//@   ensures missing_level_refused: !has(cfg, "level") ==> err != nil
+// C18 "every value the documentation presents as valid is accepted": README and the shipped files document
+// "level: 5 # (1-9, default: 5)" and "min_size: 1024 # (bytes, default: 1024)" - an omitted key takes that default
+//@   ensures omitted_keys_take_their_documented_defaults: err == nil ==> (!has(cfg, "level") ==> level == 5) && (!has(cfg, "min_size") ==> minSize == 1024)
+//@   ensures omitting_them_is_no_error: !has(cfg, "level") && !has(cfg, "min_size") && has(cfg, "content_types") && dyntype(cfg["content_types"], []any) && boxlen(cfg["content_types"]) == 0 ==> err == nil
+//@   ensures a_wrongly_typed_level_is_still_refused: has(cfg, "level") && !dyntype(cfg["level"], int) && !dyntype(cfg["level"], int64) && !dyntype(cfg["level"], float64) ==> err != nil
 //@ loop parseGzipConfig #0
 //@   props C15 C17 C18
 //@   invariant idx: rangeindex < len(rawTypes)
